@@ -139,7 +139,7 @@ type op struct {
 type scenario struct {
 	Name    string
 	Cache   string // mutable | immutable
-	Initial int    // -1: empty cache; 0: v0 stored
+	Initial int    // -1: empty cache; 0: v0 stored; 1: v0 then v1 stored
 	Scripts [][]op
 	Bound   int
 	// fault part
@@ -338,8 +338,15 @@ func body(sc scenario) func(x *gosim.Exec) {
 			if err != nil {
 				x.Violate("setup:initial-store-failed", "%v", err)
 			}
-			w.stores = append(w.stores, &storeRec{client: -1, v: 0, ok: true, done: true})
+			w.stores = append(w.stores, &storeRec{client: -1, v: 0, start: -4, end: -3, ok: true, done: true})
 			time.Sleep(time.Millisecond)
+			if sc.Initial >= 1 && err == nil { // two versions in the cache: v0, then v1
+				if err = c.Store(x.Ctx(), key, "/src/final/v1"); err != nil {
+					x.Violate("setup:initial-store-failed", "%v", err)
+				}
+				w.stores = append(w.stores, &storeRec{client: -1, v: 1, start: -2, end: -1, ok: true, done: true})
+				time.Sleep(time.Millisecond)
+			}
 		}
 		setupDone := make(chan struct{})
 		close(setupDone)
@@ -368,6 +375,7 @@ func body(sc scenario) func(x *gosim.Exec) {
 					case "Fetch":
 						w.curOp[c] = "Fetch"
 						dest := fmt.Sprintf("/dest/c%d/op%d", c, j)
+						fetchBegan := w.events
 						err := cache.Fetch(x.Ctx(), key, dest)
 						x.Note("client%d Fetch = %v", c, err)
 						if err != nil {
@@ -384,6 +392,21 @@ func body(sc scenario) func(x *gosim.Exec) {
 								sig += "version-nobody-stored"
 							}
 							x.Violate(sig+":cache="+sc.Cache+w.brokenSuffix(), "client %d: Fetch returned nil and installed %s (matching version: %d)", c, what, got)
+						}
+						// "A Store that reports success makes its version the one that subsequent Fetches return until the next
+						// Store": a Fetch must not install a version whose Store was over before another successful Store began,
+						// when that other Store was itself over before the Fetch began
+						var mine *storeRec
+						for _, sr := range w.stores {
+							if sr.v == got && sr.ok {
+								mine = sr
+							}
+						}
+						for _, sr := range w.stores {
+							if mine != nil && sr.ok && sr.done && sr.end <= fetchBegan && mine.done && mine.end < sr.start {
+								x.Violate("fetch-installed-superseded-version:cache="+sc.Cache+w.brokenSuffix(), "client %d: Fetch installed v%d although Store(v%d) had begun after Store(v%d) returned and had itself returned before this Fetch began", c, got, sr.v, got)
+								break
+							}
 						}
 					case "Clean":
 						w.curOp[c] = "CleanEntry"
@@ -605,6 +628,9 @@ func scenarios(t *testing.T) []scenario {
 		add(cache, 0, 2, []op{S(1)}, []op{F, S(2)})
 		if cache == "immutable" {
 			add(cache, 0, 2, []op{S(1)}, []op{C, F}) // CleanEntry overtaken by a complete Store needs two deviations
+			// two versions already stored: a Fetch that listed them is overtaken by a Store of a third and a CleanEntry that
+			// is itself held up between two removals
+			add(cache, 1, 2, []op{F}, []op{S(2), C})
 		}
 		if ev.Thorough() {
 			add(cache, 0, 2, []op{S(1)}, []op{F})
